@@ -213,7 +213,8 @@ def gen_n(rng, tier, stats):
     pres = [b'', b'ab.', b'X.Y.', b'ns.', b'www.', b'a' * 63 + b'.', b'\xe9\xff.q.', b'a.b.c.d.e.f.g.h.',
             b'x' * 63 + b'.' + b'y' * 63 + b'.' + b'z' * 63 + b'.' + b'w' * 45 + b'.']
     doms = [b't.example.com', b'T.Example.COM', b'T.EXAMPLE.COM', b't.eXAMPLE.cOM']
-    dests = [(0, b''), (4, bytes([192, 0, 2, 7])), (4, bytes([0, 0, 0, 0])), (4, bytes([255, 254, 253, 1]))]
+    dests = [(0, b''), (4, bytes([192, 0, 2, 7])), (4, bytes([0, 0, 0, 0])), (4, bytes([255, 254, 253, 1])),
+             (6, bytes([0x20, 1, 0xd, 0xb8] + [0] * 11 + [0x35])), (6, bytes(15) + b'\x01')]
     nsips = [None, bytes([198, 51, 100, 9])]
     ids = [0, 65535, 4242, 256]
 
@@ -486,7 +487,7 @@ def check(rep):
                        'arbitrary bytes except . and NUL, up to 253 chars), all ids/types, plus names outside it (bytes compared, verdict recorded); '
                        'W: 7 types x 5 codecs x %d payload lengths (1..12, every capacity edge +-1, 4096, 4098) x question names (19 and 248 chars; '
                        'thorough: 253 chars, mixed case / high bytes) plus random in-domain names, ids incl. 0 and 65535; N: NS / A(ns.) / A(www.) '
-                       'under t.example.com in 4 spellings x 9 prefixes x {no destination, 3 IPv4 destinations} x {-n unset, set}, and 11 queries that '
+                       'under t.example.com in 4 spellings x 9 prefixes x {no destination, 3 IPv4 destinations, 2 IPv6 destinations} x {-n unset, set}, and 11 queries that '
                        'must get no auxiliary answer; H: 23 command heads x 7 types through the real tunnel_dns/handle_null_request (oracle only). '
                        'stage 2: every datagram the real code emitted -> extracted wf_msg + Python parse_msg + echo oracle. stage 3: hand-made '
                        'malformed/wellformed corpus and mutations of real datagrams through both parsers. distinct = distinct datagrams parsed; '
